@@ -4,7 +4,7 @@ import common
 
 PROPS = "RotoV.Props.C15"
 MODULES = ["RotoV.Lemmas.ListCap", "RotoV.Lemmas.ListRaw", "RotoV.Lemmas.ListInv", "RotoV.Lemmas.ListRefine", "RotoV.Lemmas.ListNested",
-           "RotoV.Lemmas.ListJoin", "RotoV.Lemmas.ListFor", "RotoV.Lemmas.ListSelfEq", "RotoV.Lemmas.ListIter",
+           "RotoV.Lemmas.ListJoin", "RotoV.Lemmas.ListFor", "RotoV.Lemmas.ListSelfEq", "RotoV.Lemmas.ListIter", "RotoV.Lemmas.ListBind", "RotoV.Model.ListBind", "RotoV.Model.ListBindBase",
            "RotoV.Model.ListM", "RotoV.Model.ListBase", "RotoV.Model.ListFor", "RotoV.Model.ListIter"]
 
 
@@ -19,7 +19,7 @@ def search(ctx):
 
 
 def run(ctx):
-    ctx.extract(["capacity", "listlocks", "listguards", "listjoin", "listfor", "listiter"])
+    ctx.extract(["capacity", "listlocks", "listguards", "listjoin", "listfor", "listiter", "listbind"])
     ctx.prove(PROPS, extra_modules=MODULES)
     if ctx.build_harness("c15"):
         ctx.harness("c15", ["run", ctx.seed, ctx.tier], timeout=3000)
